@@ -365,7 +365,7 @@ RULES.append(a6b)
 
 @rule("MC", doc="must-call census: no function of this property's files has gained an early exit in front of work it always did (every crate-local call that lay on all paths to a normal return in the reviewed tree still does)")
 def mc(ctx):
-    C.must_call_census(ctx, ctx.lib(), ['src/egraph/analysis.rs', 'src/egraph/rebuild.rs', 'src/egraph/union.rs', 'src/egraph/add.rs'])
+    C.must_call_census(ctx, ctx.lib(), ['src/egraph/analysis.rs', 'src/egraph/rebuild.rs', 'src/egraph/union.rs', 'src/egraph/add.rs', 'src/egraph/find.rs'])
 
 
 RULES.append(mc)
